@@ -60,6 +60,7 @@ type encRun struct {
 	an   *Analysis
 	fr   *Frame
 	how  string
+	recv AV
 	res  ASlice
 	rst  DNF
 	okay bool
@@ -98,6 +99,7 @@ func runEncoder(c *Ctx, pkgRel string, m *ssa.Function, crc *ssa.Function) encRu
 		return er
 	}
 	er.how = how
+	er.recv = recv
 	an.obligs, an.wraps, an.ucalls = nil, nil, nil
 	er.fr = runMethod(an, m, recv, st)
 	if len(er.fr.returns) != 1 {
